@@ -659,7 +659,8 @@ class GenExec(Exec):
         # exceptional exits of the nested call: mode preserved (its own C15), data arbitrary extension
         junk = self.fresh("junk", BYTES)
         o.fields["data"] = ZSeq(z3.Concat(data.t, junk), "int")
-        self.fact(z3.Not(self.V.VALID(cls)(d.t)) if k == 1 else z3.BoolVal(True))
+        # the callee's proved `accepts-valid`: it raises SerializationError / ValueError only for invalid objects
+        self.fact(z3.Not(self.V.VALID(cls)(d.t)))
         raise PyExc("SerializationError" if k == 1 else "ValueError", node)
 
     # reader ------------------------------------------------------------
